@@ -5,6 +5,7 @@ import common as C
 import boardcorr as B
 import uciproc
 import positions as P
+import ucigrammar as UG
 from props import searchprop as SP
 from props.c09 import POSITIONS
 
@@ -20,10 +21,15 @@ def run(ctx):
     violations, cov = [], {"samples": []}
 
     def relevant(case, dv):
-        return dv["field"] in ("info-count", "info-line", "bestmove-line", "engine-panic", "model-setup",
+        return dv["field"] in ("info-count", "info-line", "info-order", "info-invalid", "bestmove-line", "engine-panic", "model-setup",
                                "engine-setup-panic", "seldepth", "nodes")
+
+    def internal(case, dv):
+        # fixed by the property and judged on the engine alone: valid UCI, iteration reports 1, 2, 3, ... in order (info-invalid,
+        # info-order), legal PVs (replayed below); the counters and the exact fields of the model's trace are a correspondence
+        return dv["field"] in ("info-count", "info-line", "bestmove-line", "model-setup", "seldepth", "nodes")
     SP.corr(ctx, prop, ("value", "budget", "seq"), relevant,
-            "info lines (depth order, score, pv, counters) differ from the model's output trace", violations, cov)
+            "info lines (depth order, score, pv, counters) differ from the model's output trace", violations, cov, internal=internal)
 
     # ---- the real binary: `go depth N` reports every depth 1..N; every line is valid UCI; every
     # PV replays as legal moves on the Coq model ----
@@ -51,17 +57,17 @@ def run(ctx):
                 problem = None
                 for l in infos:
                     lines_checked += 1
-                    m = INFO_RE.match(l)
-                    if not m:
-                        problem = "info line is not well-formed UCI: %r" % l
+                    di = UG.parse_info(l)
+                    if di is None:
+                        problem = "info line is not valid UCI: %r" % l
                         break
-                    depths.append(int(m.group(1)))
-                    if m.group(6) is None:
-                        problem = "info line without a score: %r" % l
+                    if not UG.iteration_report(di):
+                        continue          # `info string ...`, `info currmove ...`: valid, not an iteration report
+                    depths.append(di["depth"])
+                    if "score" not in di or "pv" not in di:
+                        problem = "iteration report without a score or without a pv: %r" % l
                         break
-                    pv = m.group(7).split()
-                    if len(pv) > int(m.group(1)):
-                        problem = "pv longer than the depth: %r" % l
+                    pv = di["pv"]
                     pv_items.append("match from_fen %s with Some b0 => match play b0 [%s] with Some _ => true | None => false end | None => false end"
                                     % (B.coq_str(fen), "; ".join(B.coq_str(x) for x in ms + pv)))
                     pv_meta.append((poscmd, n, l))
@@ -99,12 +105,13 @@ def run(ctx):
                     continue
                 deep_runs += 1
                 out = eng.lines()[before:idx + 1]
-                depths = [int(m.group(1)) for m in (INFO_RE.match(l) for l in out if l.startswith("info")) if m]
-                bad = [l for l in out if l.startswith("info") and not INFO_RE.match(l)]
+                parsed = [(l, UG.parse_info(l)) for l in out if l.startswith("info")]
+                depths = [di["depth"] for l, di in parsed if UG.iteration_report(di)]
+                bad = [l for l, di in parsed if di is None]
                 if bad or depths != list(range(1, n + 1)):
                     missing = sorted(set(range(1, n + 1)) - set(depths))[:10]
                     rp = C.write_replay(prop, {"kind": "go depth N over the pipe, large N", "position": "position " + pos, "N": n,
-                                               "problem": ("info line is not well-formed UCI: %r" % bad[0]) if bad else
+                                               "problem": ("info line is not valid UCI: %r" % bad[0]) if bad else
                                                "go depth %d did not report every depth 1..%d (missing %s, %d lines)" % (n, n, missing, len(depths)),
                                                "output_tail": out[-4:],
                                                "replay_cmd": "printf 'position %s\ngo depth %d\n' | (cat; sleep 20) | %s | tail -3" % (pos, n, C.ENGINE)})
@@ -135,10 +142,10 @@ def run(ctx):
                 if idx is None:
                     break
                 for l in eng.lines()[before:idx + 1]:
-                    m = INFO_RE.match(l) if l.startswith("info") else None
-                    if m:
+                    di = UG.parse_info(l) if l.startswith("info") else None
+                    if di is not None and "pv" in di:
                         lines_checked += 1
-                        pv = m.group(7).split()
+                        pv = di["pv"]
                         pv_items.append("match from_fen %s with Some b0 => match play b0 [%s] with Some _ => true | None => false end | None => false end"
                                         % (B.coq_str(fen), "; ".join(B.coq_str(x) for x in ms + pv)))
                         pv_meta.append((poscmd, d, l))
@@ -167,12 +174,14 @@ def run(ctx):
                 for l in out:
                     if l.startswith("info"):
                         lines_checked += 1
-                        m = INFO_RE.match(l)
-                        if not m:
-                            rp = C.write_replay(prop, {"kind": "self-play info line", "position": poscmd, "problem": "not well-formed: %r" % l})
+                        di = UG.parse_info(l)
+                        if di is None:
+                            rp = C.write_replay(prop, {"kind": "self-play info line", "position": poscmd, "problem": "not valid UCI: %r" % l})
                             violations.append({"replay": rp})
                             continue
-                        pv = m.group(7).split()
+                        if "pv" not in di:
+                            continue
+                        pv = di["pv"]
                         pv_items.append("match from_fen %s with Some b0 => match play b0 [%s] with Some _ => true | None => false end | None => false end"
                                         % (B.coq_str(fen), "; ".join(B.coq_str(x) for x in ms + pv)))
                         pv_meta.append((poscmd, d, l))
@@ -196,10 +205,16 @@ def run(ctx):
                 violations.append({"replay": rp})
                 break
     # exact text: the model of log_uci_info's formatting (model/InfoLine.v) must reproduce every real line character by character
+    # (a correspondence: a line that is valid UCI but no longer has today's shape is reported as such, not as a failing input)
     raw = list(dict.fromkeys(meta[2] for meta in pv_meta))
     fitems = []
+    fraw = []
+    reshaped = []
     for l in raw:
         m = INFO_RE.match(l)
+        if not m or m.group(6) is None:
+            reshaped.append(l)
+            continue
         d, sd, n, t = int(m.group(1)), int(m.group(2) or 0), int(m.group(3)), m.group(4)
         sc = m.group(6)
         pv = m.group(7).split()
@@ -209,20 +224,22 @@ def run(ctx):
             scq = "(Some (%s)%%Z)" % ("-32767" if sc.split()[1].startswith("-") else "32767")
         fitems.append("info_string %d %d %d%%N %s %s [%s]" % (d, sd, n, "(Some %s%%N)" % t if t else "None", scq,
                                                             "; ".join(B.coq_str(x) for x in pv)))
+        fraw.append(l)
     fvals, flg = C.coq_eval_items("c14fmt", "From Coq Require Import NArith ZArith List String.\nImport ListNotations.\nFrom RCE Require Import model.InfoLine.\nOpen Scope string_scope.\n",
                                   fitems, lambda l: l, nshards=C.NPROC, timeout=900)
     if fvals is None:
         rp = C.write_replay(prop, {"broken": "info line text evaluation", "log": flg[-1500:]})
         violations.append({"replay": rp, "no_input": True})
     else:
-        nbf = 0
-        for l, v in zip(raw, fvals):
-            if v != l:
-                nbf += 1
-                if nbf <= 3:
-                    rp = C.write_replay(prop, {"kind": "info line text differs from the model of log_uci_info", "engine": l, "model": v})
-                    violations.append({"replay": rp})
-        cov["info_lines_text_compared"] = len(raw)
+        bad_txt = [(l, v) for l, v in zip(fraw, fvals) if v != l]
+        if bad_txt or reshaped:
+            rp = C.write_replay(prop, {"broken": "correspondence engine = model on the TEXT of info lines (model/InfoLine.v, for which C14_info_syntax proves "
+                                                 "conformance to spec/UciSyntax.v): the real lines no longer have the modelled shape; they were still judged "
+                                                 "against the UCI grammar (lib/ucigrammar.py), the depth order and PV legality by the other legs",
+                                       "lines_not_of_the_modelled_shape": reshaped[:3],
+                                       "lines_differing_from_the_model": [{"engine": l, "model": v} for l, v in bad_txt[:3]]})
+            violations.append({"replay": rp, "no_input": True})
+        cov["info_lines_text_compared"] = len(fraw)
     cov["pipe_info_lines_validated"] = lines_checked
     cov["pipe_pvs_replayed_on_model"] = len(pv_items)
     cov["evaluations"] = cov.get("evaluations", 0) + lines_checked
